@@ -421,6 +421,13 @@ class Run:
             sure = since is not None and self.cyc() - max(since[1], begin) >= 2
             last = self.sh.last_eff.get(host)
             lately = last is not None and last[0] >= self.ginfo[gid].get("aexit_seq", 0)
+            if force and not lately and since is None:
+                # a cancelled scope above a shield that was raised only a moment ago: the
+                # host may have been interrupted before the shield existed
+                if any(m.cancelled for m in self.visible_chain(host)):
+                    lately = True
+                    self.window("tie_tolerated:host_cancelled_before_recent_shield")
+
             if sure or (force and (since is not None or lately)):
                 n.fuzzy_until = self.cyc() + 1
                 self.window("host_cancelled_while_waiting_in_aexit")
@@ -567,6 +574,21 @@ class Run:
             self.inprog.pop(tid, None)
             self.judge_completed(rec)
 
+    def visible_chain(self, tid: Any) -> list:
+        """the scopes whose cancellation is (or, for a shield switched on within the last
+        3 cycles, a moment ago still was) visible to the task"""
+        chain: list = []
+        n = self.sh.top(tid)
+        cyc = self.cyc()
+        while n is not None:
+            chain.append(n)
+            if n.shield and cyc - n.shield_at > 3:
+                break
+
+            n = n.parent
+
+        return chain
+
     def refresh_inferred(self, tid: Any, depth: int = 0) -> None:
         """A task was observed to be interrupted although the model does not (yet) see its
         scope as effectively cancelled: apply the inferred hand-overs that may explain it
@@ -582,14 +604,7 @@ class Run:
         if not self.sh.task_eff(tid):
             # every scope whose cancellation would be visible to the task: its own stack and
             # the ancestors up to (and including) the first shielded one
-            chain: list = []
-            n = self.sh.top(tid)
-            while n is not None:
-                chain.append(n)
-                if n.shield:
-                    break
-
-                n = n.parent
+            chain = self.visible_chain(tid)
 
             for n in chain:
                 if n.kind == "group" and n.sid[1:].isdigit() and int(n.sid[1:]) in self.in_aexit:
@@ -611,6 +626,10 @@ class Run:
                 self.window("tie_tolerated:cancel_delivered_while_scope_left_or_shielded")
             elif last is not None and cyc - last[1] <= 2:
                 self.window("tie_tolerated:cancel_delivered_while_scope_left_or_shielded")
+            elif any(m.cancelled for m in self.visible_chain(tid)):
+                # the only thing between the task and a cancelled scope is a shield that
+                # was switched on within the last 3 cycles: the delivery was in flight
+                self.window("tie_tolerated:cancel_delivered_before_recent_shield")
             else:
                 self.V("C04", "cancelled-while-scope-not-effectively-cancelled",
                        {"tid": tid, "op": rec.kind, "cycle": cyc,
@@ -1253,8 +1272,11 @@ class Run:
                 # terminated, possibly long after it was delivered
                 self.window("tie_tolerated:start_reraised_cancellation_delivered_earlier")
             elif not eff and not (childs is e):
-                self.V("C04", "cancelled-while-scope-not-effectively-cancelled",
-                       {"tid": tid, "op": "start"})  # fmt: skip
+                if any(m.cancelled for m in self.visible_chain(tid)):
+                    self.window("tie_tolerated:cancel_delivered_before_recent_shield")
+                else:
+                    self.V("C04", "cancelled-while-scope-not-effectively-cancelled",
+                           {"tid": tid, "op": "start"})  # fmt: skip
 
             return
 
